@@ -48,6 +48,12 @@ SIG = {
                                [('hrp', 'List Char'), ('data', 'List Int'), ('spec', 'Int')], 'List Int'),
     'convertbits': ('bech32.py', 'convertbits',
                     [('data', 'List Int'), ('frombits', 'Int'), ('tobits', 'Int'), ('pad', 'Bool')], 'Option (List Int)'),
+    # the rest of bech32.py: strings as lists of characters; a value that may be None as an Option (a use that needs the value raises
+    # TypeError on None, like Python); tuples of possibly-None values as tuples of Options
+    'bech32_encode': ('bech32.py', 'bech32_encode', [('hrp', 'List Char'), ('data', 'List Int'), ('spec', 'Int')], 'List Char'),
+    'bech32_decode': ('bech32.py', 'bech32_decode', [('bech', 'List Char')], 'Option (List Char) × Option (List Int) × Option Int'),
+    'segwit_decode': ('bech32.py', 'decode', [('hrp', 'List Char'), ('addr', 'List Char')], 'Option Int × Option (List Int)'),
+    'segwit_encode': ('bech32.py', 'encode', [('hrp', 'List Char'), ('witver', 'Int'), ('witprog', 'List Int')], 'Option (List Char)'),
     # script assembly: a token is an opcode name / a hex string (modelled by the bytes it denotes) / an int
     'script_to_bytes': ('script.py', 'Script.to_bytes', [('OPS', 'List (String × Bytes)'), ('self_script', 'List Py.PyTok')], 'Bytes'),
     # tagged hashes of utils.py and the message-signing prefix (str arguments are modelled by their UTF-8 bytes)
@@ -148,6 +154,16 @@ RECORDS = {'List Py.PyTxIn': ('txinput_to_bytes', True, ['txid', 'txout_index', 
            'List Py.PyWit': ('txwitness_to_bytes', False, ['stack'])}
 # methods of Transaction called on self from another method of Transaction: the callee gets the caller's parameters of the same names
 SELF_CALLS = {'get_size': 'transaction_get_size', '_get_hash': 'transaction_get_hash'}
+# string functions of bech32.py: types of the locals (a table, like SIG for the parameters)
+STRFUNS = {'bech32_encode': {'combined': 'List Int'},
+           'bech32_decode': {'pos': 'Int', 'hrp': 'List Char', 'data': 'List Int', 'spec': 'Option Int'},
+           'segwit_decode': {'hrpgot': 'Option (List Char)', 'data': 'Option (List Int)', 'spec': 'Option Int', 'decoded': 'Option (List Int)'},
+           'segwit_encode': {'spec': 'Int', 'ret': 'List Char'}}
+STR_DEFAULT = {'Int': '(0 : Int)', 'List Char': '([] : List Char)', 'List Int': '([] : List Int)'}
+# callees by Python name inside bech32.py: (generated name, returns an Option?)
+STR_CALLS = {'bech32_create_checksum': ('bech32_create_checksum', False), 'bech32_verify_checksum': ('bech32_verify_checksum', True),
+             'convertbits': ('convertbits', True), 'bech32_decode': ('bech32_decode', False), 'bech32_encode': ('bech32_encode', False),
+             'decode': ('segwit_decode', False)}
 # parsers: `x.hex()` of bytes is the same data (hex strings are modelled as the bytes they denote), struct.unpack_from
 PARSERS = {'txoutput_from_raw', 'txinput_from_raw', 'transaction_from_raw'}
 # struct format characters: size in bytes (little-endian / no alignment only), unsigned
@@ -318,7 +334,7 @@ class Tr:
     def __init__(s, name, file=None):
         s.name = name; s.tmp = 0; s.pre = []; s.declared = set(); s.points = set(); s.tuple5 = set()
         s.toklists = set(); s.tokvars = set(); s.optables = set(); s.byteslists = set(); s.reclists = {}; s.recvars = {}; s.revtables = set()
-        s.hoisted = set(); s.selfcopies = set(); s.scriptlists = set(); s.fmtvars = {}; s.fmtpre = {}; s.hoisting = False; s.ratvars = set()
+        s.hoisted = set(); s.selfcopies = set(); s.scriptlists = set(); s.fmtvars = {}; s.fmtpre = {}; s.hoisting = False; s.ratvars = set(); s.optvars = set(); s.charvars = set()
         s.fconsts = FILE_CONSTS.get(file, {})
 
     def fail(s, n, why):
@@ -327,7 +343,124 @@ class Tr:
     def eff(s, term):
         s.tmp += 1; v = f't{s.tmp}'; s.pre.append(f'let {v} ← {term}'); return v
 
+    # ---- bech32.py's string functions --------------------------------------------------------------------------------
+    def str_type(s, n):
+        """'chars' | 'ints' | 'opt' | None for an expression of a string function"""
+        if isinstance(n, ast.Name):
+            if n.id in s.optvars: return 'opt'
+            if n.id in s.charlists or n.id == 'CHARSET': return 'chars'
+            if n.id in s.intlists: return 'ints'
+            return None
+        if isinstance(n, ast.Constant) and isinstance(n.value, str): return 'chars'
+        if isinstance(n, ast.Subscript) and isinstance(n.slice, ast.Slice):
+            t = s.str_type(n.value); return 'ints' if t == 'opt' else t
+        if isinstance(n, ast.BinOp) and isinstance(n.op, ast.Add): return s.str_type(n.left) or s.str_type(n.right)
+        if isinstance(n, ast.List): return 'ints'
+        if isinstance(n, ast.ListComp): return 'ints'
+        if isinstance(n, ast.Call) and isinstance(n.func, ast.Attribute) and n.func.attr in ('lower', 'upper', 'join'): return 'chars'
+        if isinstance(n, ast.Call) and isinstance(n.func, ast.Name) and n.func.id in STR_CALLS:
+            return {'bech32_create_checksum': 'ints', 'convertbits': 'ints', 'bech32_encode': 'chars'}.get(n.func.id)
+        return None
+
+    def e_raw_opt(s, n):
+        """an expression whose value may be None, as an Option (no unwrapping)"""
+        if isinstance(n, ast.Constant) and n.value is None: return 'none'
+        if isinstance(n, ast.Name) and n.id in s.optvars: return n.id
+        if isinstance(n, ast.Call) and isinstance(n.func, ast.Name) and n.func.id in STR_CALLS and STR_CALLS[n.func.id][1]:
+            return s.eff(f'{STR_CALLS[n.func.id][0]} ' + ' '.join(s.str_args(n)))
+        return None
+
+    def str_args(s, n):
+        """positional arguments of a call to a sibling function, the callee's constant defaults filled in"""
+        if n.keywords: s.fail(n, 'keyword arguments')
+        d = [x for x in s.tree.body if isinstance(x, ast.FunctionDef) and x.name == n.func.id]
+        if not d: s.fail(n, 'callee not found')
+        d = d[-1]
+        params = d.args.args; defaults = d.args.defaults
+        out = [s.e(a) for a in n.args]
+        for k in range(len(n.args), len(params)):
+            j = k - (len(params) - len(defaults))
+            if j < 0: s.fail(n, 'missing argument')
+            out.append(s.e(defaults[j]))
+        return out
+
+    def e_str(s, n):
+        if isinstance(n, ast.Constant) and isinstance(n.value, str):
+            return f'({lean_str(n.value)}.toList : List Char)'
+        if isinstance(n, ast.Name) and n.id in s.optvars:
+            return s.eff(f'Py.unwrap {n.id}')                      # a use of a possibly-None value: TypeError on None
+        if isinstance(n, ast.Call) and isinstance(n.func, ast.Name):
+            f = n.func.id; a = n.args
+            if f in ('any', 'all') and len(a) == 1 and isinstance(a[0], ast.GeneratorExp) and len(a[0].generators) == 1 \
+                    and not a[0].generators[0].ifs and isinstance(a[0].generators[0].target, ast.Name):
+                g = a[0].generators[0]; v = g.target.id
+                it = s.e(g.iter)
+                saved = s.pre; s.pre = []
+                s.charvars.add(v); c = s.cond(a[0].elt); s.charvars.discard(v)
+                if s.pre: s.fail(n, 'effects inside any()/all()')
+                s.pre = saved
+                return f'(List.{f} {it} (fun {v} => {c}))'
+            if f in STR_CALLS:
+                nm, opt = STR_CALLS[f]
+                t = s.eff(f'{nm} ' + ' '.join(s.str_args(n)))
+                return s.eff(f'Py.unwrap {t}') if opt else t
+            if f == 'len' and len(a) == 1 and s.str_type(a[0]) in ('chars', 'ints', 'opt'):
+                return f'((List.length {s.e(a[0])} : Nat) : Int)'
+        if isinstance(n, ast.Call) and isinstance(n.func, ast.Attribute):
+            f = n.func
+            if f.attr in ('lower', 'upper') and not n.args and s.str_type(f.value) == 'chars':
+                return s.eff(f'Py.str{f.attr.capitalize()} {s.e(f.value)}')
+            if (f.attr == 'rfind' and len(n.args) == 1 and isinstance(n.args[0], ast.Constant) and isinstance(n.args[0].value, str)
+                    and len(n.args[0].value) == 1 and s.str_type(f.value) == 'chars'):
+                return f'(Py.strRfind {s.e(f.value)} {lean_char(n.args[0].value)})'
+            if (f.attr == 'find' and len(n.args) == 1 and isinstance(n.args[0], ast.Name) and n.args[0].id in s.charvars
+                    and s.str_type(f.value) == 'chars'):
+                return f'(Py.strFind {s.e(f.value)} {n.args[0].id})'
+            if (f.attr == 'join' and isinstance(f.value, ast.Constant) and f.value.value == '' and len(n.args) == 1
+                    and isinstance(n.args[0], ast.ListComp)):
+                return s.e_str(n.args[0])
+        if isinstance(n, ast.ListComp) and len(n.generators) == 1 and not n.generators[0].ifs and isinstance(n.generators[0].target, ast.Name):
+            g = n.generators[0]; v = g.target.id
+            it = s.e(g.iter)
+            ischar = s.str_type(g.iter) == 'chars'
+            saved = s.pre; s.pre = []
+            if ischar: s.charvars.add(v)
+            body = s.e(n.elt); inner = s.pre; s.pre = saved
+            if ischar: s.charvars.discard(v)
+            lam = f'(fun ({v} : _) => do ' + ''.join(p_ + '; ' for p_ in inner) + f'pure {body})'
+            return s.eff(f'List.mapM {lam} {it}')
+        if isinstance(n, ast.Subscript) and isinstance(n.slice, ast.Slice) and s.str_type(n.value) in ('chars', 'ints', 'opt'):
+            if n.slice.step is not None: s.fail(n, 'slice step')
+            lo = s.e(n.slice.lower) if n.slice.lower else '(0 : Int)'
+            hi = s.e(n.slice.upper) if n.slice.upper else 'Py.slEnd'
+            return f'(Py.sliceL {s.e(n.value)} {lo} {hi})'
+        if isinstance(n, ast.Subscript) and not isinstance(n.slice, ast.Slice):
+            if isinstance(n.value, ast.Name) and n.value.id == 'CHARSET': return s.eff(f'Py.listGet {s.e(n.value)} {s.e(n.slice)}')
+            if s.str_type(n.value) in ('ints', 'opt'): return s.eff(f'Py.indexL {s.e(n.value)} {s.e(n.slice)}')
+        if isinstance(n, ast.Compare) and len(n.ops) == 1:
+            l, r, op = n.left, n.comparators[0], n.ops[0]
+            if isinstance(op, (ast.Is, ast.IsNot)) and isinstance(r, ast.Constant) and r.value is None:
+                o = s.e_raw_opt(l)
+                if o is None: s.fail(n, 'is None on a value that cannot be None')
+                return f'(Option.isNone {o})' if isinstance(op, ast.Is) else f'(Option.isSome {o})'
+            if isinstance(op, ast.In) and isinstance(l, ast.Name) and l.id in s.charvars and s.str_type(r) == 'chars':
+                return f'(List.contains {s.e(r)} {l.id})'
+            if isinstance(op, (ast.Eq, ast.NotEq)):
+                sym = '==' if isinstance(op, ast.Eq) else '!='
+                lo, ro = s.e_raw_opt(l), s.e_raw_opt(r)
+                if lo is not None or ro is not None:
+                    # == / != never raise on None: compare as Options
+                    a_ = lo if lo is not None else f'(some {s.e(l)})'
+                    b_ = ro if ro is not None else f'(some {s.e(r)})'
+                    return f'({a_} {sym} {b_})'
+                if isinstance(r, ast.Tuple) and all(isinstance(x, ast.Constant) and x.value is None for x in r.elts):
+                    return f'({s.e(l)} {sym} (' + ', '.join('none' for _ in r.elts) + '))'
+        return None
+
     def e(s, n):
+        if s.name in STRFUNS:
+            r = s.e_str(n)
+            if r is not None: return r
         if isinstance(n, ast.Constant):
             if isinstance(n.value, bool): return 'true' if n.value else 'false'
             if isinstance(n.value, int): return f'({n.value} : Int)'
@@ -667,6 +800,7 @@ class Tr:
         if isinstance(n, (ast.Compare, ast.BoolOp)) or (isinstance(n, ast.UnaryOp) and isinstance(n.op, ast.Not)):
             return t
         if isinstance(n, ast.Constant) and isinstance(n.value, bool): return t
+        if s.name in STRFUNS and isinstance(n, ast.Call) and isinstance(n.func, ast.Name) and n.func.id in ('any', 'all'): return t
         if isinstance(n, ast.Call) and isinstance(n.func, ast.Name) and n.func.id in ('isinstance', 'is_infinite', 'has_even_y', 'schnorr_verify'): return t
         if t.startswith('(Py.tokInTable') or t.startswith('(Py.inTableB') or t.startswith('(Py.bytesLt'): return t
         if isinstance(n, ast.Name) and n.id in s.boolvars: return t
@@ -841,6 +975,21 @@ class Tr:
         r = [ind + p for p in s.pre]; s.pre = []; return r
 
     def stmt(s, st, ind):
+        if s.name in STRFUNS:
+            if isinstance(st, ast.Return) and isinstance(st.value, ast.Tuple) and '×' in s.ret:
+                comps = [c.strip() for c in s.ret.split('×')]
+                if len(comps) != len(st.value.elts): s.fail(st, 'tuple return arity')
+                parts = []
+                for c, x in zip(comps, st.value.elts):
+                    if not c.startswith('Option'): s.fail(st, 'tuple return component type')
+                    o = s.e_raw_opt(x)
+                    parts.append(o if o is not None else f'(some {s.e(x)})')
+                return s.flush(ind) + [f'{ind}return (' + ', '.join(parts) + ')']
+            if (isinstance(st, ast.Assign) and len(st.targets) == 1 and isinstance(st.targets[0], ast.Name)
+                    and st.targets[0].id in s.optvars):
+                o = s.e_raw_opt(st.value)
+                v = o if o is not None else f'(some {s.e(st.value)})'
+                return s.flush(ind) + [f'{ind}{st.targets[0].id} := {v}']
         if isinstance(st, ast.Expr) and isinstance(st.value, ast.Constant): return []      # docstring
         if isinstance(st, ast.Pass): return []
         if (isinstance(st, ast.Expr) and isinstance(st.value, ast.Call) and getattr(st.value.func, 'id', '') == 'debug_print_vars'
@@ -1217,6 +1366,16 @@ class Tr:
                 def visit_Name(self, n):
                     return ast.copy_location(ast.Name(id='self', ctx=n.ctx), n) if n.id in copies else n
             node = RC().visit(node)
+        strpre = []
+        if s.name in STRFUNS:
+            for nm, T_ in STRFUNS[s.name].items():
+                if T_.startswith('Option'):
+                    strpre.append(f'  let mut {nm} : {T_} := none'); s.optvars.add(nm)
+                else:
+                    strpre.append(f'  let mut {nm} : {T_} := {STR_DEFAULT[T_]}')
+                    if T_ == 'List Char': s.charlists.add(nm)
+                    if T_ == 'List Int': s.intlists.add(nm)
+                s.declared.add(nm)
         if s.name in PARSERS:
             # format strings bound to names (needed before the declarations are hoisted)
             for st in ast.walk(node):
@@ -1242,13 +1401,17 @@ class Tr:
                 for x in ([tg] if isinstance(tg, ast.Name) else getattr(tg, 'elts', [])):
                     if isinstance(x, ast.Name) and x.id in {p for p, _ in params} and x.id not in rebound:
                         rebound.append(x.id)
-        pre = [f'  let mut {r} := {r}' for r in rebound] + mutpre + pre
+        pre = [f'  let mut {r} := {r}' for r in rebound] + mutpre + strpre + pre
         body = pre + s.block(node.body, '  ')
         last = node.body[-1]
         if not isinstance(last, (ast.Return, ast.Raise)):
             body.append('  throw PyErr.fellThrough' if not ret.startswith('Option') and ret != 'Unit'
                         else ('  return none' if ret != 'Unit' else '  return ()'))
         return f'def {s.name} {ps} : Except PyErr ({ret}) := do\n' + '\n'.join(body) + '\n'
+
+
+def lean_char(c):
+    return "'" + ('\\\\' if c == '\\' else "\\'" if c == "'" else c) + "'" if 32 <= ord(c) < 127 else f'(Char.ofNat {ord(c)})'
 
 
 def lean_str(x):
@@ -1377,6 +1540,7 @@ def main():
         CONSTS['BECH32M_CONST'] = f'({b32.BECH32M_CONST} : Int)'
         for k in ('BECH32', 'BECH32M'):
             CONSTS[f'Encoding.{k}'] = f'({getattr(b32.Encoding, k).value} : Int)'
+        FILE_CONSTS['bech32.py'] = {'CHARSET': f'({lean_str(b32.CHARSET)}.toList : List Char)'}
         rmd = mods['ripemd160']
         FILE_CONSTS['ripemd160.py'] = {k: '([' + ', '.join(f'({x} : Int)' for x in getattr(rmd, k)) + '] : List Int)'
                                        for k in ('ML', 'MR', 'RL', 'RR', 'KL', 'KR')}
